@@ -47,6 +47,9 @@ fn main() {
             };
             let code = match prop.as_str() {
                 "C01" => props::c01::run(&cx),
+                "C02" => props::c02::run(&cx),
+                "C03" => props::c03::run(&cx),
+                "C04" => props::c04::run(&cx),
                 other => {
                     eprintln!("unknown property {}", other);
                     3
